@@ -105,10 +105,12 @@ def synchronized(func, *args, **kwargs):
         if need_acquire:
             LOCKS[oracle].acquire()
             THREADS[oracle] = thread_name
-        ret_val = func(*args, **kwargs)
-        if need_acquire:
-            THREADS[oracle] = None
-            LOCKS[oracle].release()
+        try:
+            ret_val = func(*args, **kwargs)
+        finally:
+            if need_acquire:
+                THREADS[oracle] = None
+                LOCKS[oracle].release()
         return ret_val
 
     return wrapped_func
